@@ -101,6 +101,16 @@ package notifyf
 //@   perreturn
 //@   modifies buf.buf.bytes
 //@   ensures [C03] err == nil && buf.buf.bytes == pre
+//@   site ).Write#0 assert [C03] $2 == 1
+//@   site ).Write#1 assert [C03] $2 == 2
+//@   site ).Write#2 assert [C03] $2 == 3
+//@   site ).Write#3 assert [C03] $2 == 4
+//@   site ).Write#4 assert [C03] $2 == 5
+//@   site ).Write#5 assert [C03] $2 == 6
+//@   site ).Write#6 assert [C03] $2 == 7
+//@   site ).Write#7 assert [C03] $2 == 8
+//@   site ).Write#8 assert [C03] $2 == 9
+//@   sites ).Write = 9
 //@   safety [C03]
 //
 //@ func (*ReportInfo).WriteBlock
